@@ -7,6 +7,9 @@ var registry = map[string]func() core.Property{
 	"C02": NewC02,
 	"C03": NewC03,
 	"C04": NewC04,
+	"C05": NewC05,
+	"C06": NewC06,
+	"C07": NewC07,
 	"C08": NewC08,
 	"C09": NewC09,
 	"C13": NewC13,
@@ -15,6 +18,8 @@ var registry = map[string]func() core.Property{
 	"C16": NewC16,
 	"C17": NewC17,
 	"C18": NewC18,
+	"C19": NewC19,
+	"C20": NewC20,
 	"C10": NewC10,
 	"C11": NewC11,
 	"C12": NewC12,
